@@ -11,7 +11,11 @@ RULE = ("(1) thread workload (harness/src/threads.rs): N in {2, 4, 8, 16} OS thr
         "2-3 threads and short histories, under Miri (data races + UB; its scheduler picks the interleavings). "
         "(2) teardown matrix (harness/src/bin/teardown.rs): {user thread-local registered before / after the collector's} x {unique object, "
         "buffered object, garbage cycle, buffered cycle still held, object with Weak + side record, object owning a Cleaner with a pending "
-        "action} x {spawned thread exits, main thread returns (child process)}: no crash / abort / non-zero exit, no payload dropped twice, no "
+        "action} x {spawned thread exits, main thread returns (child process)} x {what the user's own thread-local destructor does when it runs, "
+        "possibly after the collector's thread-locals are gone: nothing, collect_cycles + churn + try_unwrap, allocations of cycles, allocations with "
+        "auto-collect on and a buffered-objects threshold set, downgrade / upgrade / new_cyclic, Cleaner::register + clean; played in child processes, "
+        "the late destructor announces itself so that the run shows it happened; state::is_tracing() must not read true afterwards}: "
+        "no crash / abort / non-zero exit, no payload dropped twice, no "
         "action run twice, no allocator double free, no sanitizer report. evaluations = histories + cells; distinct non-trivial = distinct "
         "(thread count, thread, operation list) histories in which a collector pass reclaimed something, plus distinct teardown cells; "
         "schedules are those that occurred (coverage.sets.schedules), not an enumeration.")
@@ -72,7 +76,7 @@ def plan(ctx):
 
 
 def floors(ctx, evaluations, distinct, counters, sets):
-    msgs = floor_msgs(counters, {"idle_windows_checked": 50, "thread_runs": 20, "child_processes": 12, "objects_reclaimed_by_collector": 1000})
+    msgs = floor_msgs(counters, {"idle_windows_checked": 50, "thread_runs": 20, "child_processes": 100, "late_destructors_observed": 90, "objects_reclaimed_by_collector": 1000})
     for n in ("2", "4", "8", "16"):
         if n not in sets.get("thread_counts", set()):
             msgs.append("no run with %s threads" % n)
